@@ -511,6 +511,24 @@ func ruleM7(c *Ctx) {
 				return true
 			}
 			stack = append(stack, x)
+			// the same pairs kept as a read-only table: TABLE[formType] compared with the query type
+			if ix, ok := x.(*ast.IndexExpr); ok {
+				if id, ok := ix.X.(*ast.Ident); ok {
+					if v, ok := info.Uses[id].(*types.Var); ok && v.Parent() == p.Types.Scope() {
+						for _, kv := range readOnlyRowsOf(p, v) {
+							fl, ok1 := constStr(info, kv.Key)
+							ql, ok2 := constStr(info, kv.Value)
+							if !ok1 || !ok2 || !fixedRegForms[fl] || !regClassTypes[ql] {
+								continue
+							}
+							n++
+							c.check(guardedAt(stack), "M7", fmt.Sprintf("%s|%s accepts %s", fd.Name.Name, fl, ql), c.L.Pos(ix.Pos()),
+								fmt.Sprintf("form type %q accepts any %s register for every mnemonic (table %s): the register actually written is never compared with %s", fl, ql, id.Name, strings.ToUpper(fl)))
+						}
+					}
+				}
+				return true
+			}
 			be, ok := x.(*ast.BinaryExpr)
 			if !ok || be.Op != token.LAND {
 				return true
